@@ -30,6 +30,12 @@ func (s *Server) handlePropagatedRequest(m *nats.Msg) {
 		s.logger.Warnf("Invalid propagated request: %v", err)
 		return
 	}
+	// The request comes off the wire, so make sure it actually carries the
+	// payload for the operation before handing it to the metadata API.
+	if err := validatePropagatedRequest(req); err != nil {
+		s.logger.Warnf("Invalid propagated request: %v", err)
+		return
+	}
 	switch req.Op {
 	case proto.Op_CREATE_STREAM:
 		resp = s.handleCreateStream(req)
@@ -64,6 +70,41 @@ func (s *Server) handlePropagatedRequest(m *nats.Msg) {
 	if err := m.Respond(data); err != nil {
 		s.logger.Errorf("Failed to respond to propagated request: %v", err)
 	}
+}
+
+// validatePropagatedRequest returns an error if the request is missing the
+// operation payload corresponding to its Op. Unknown operations are left to
+// the caller to reject.
+func validatePropagatedRequest(req *proto.PropagatedRequest) error {
+	missing := false
+	switch req.Op {
+	case proto.Op_CREATE_STREAM:
+		missing = req.CreateStreamOp == nil || req.CreateStreamOp.Stream == nil
+	case proto.Op_SHRINK_ISR:
+		missing = req.ShrinkISROp == nil
+	case proto.Op_EXPAND_ISR:
+		missing = req.ExpandISROp == nil
+	case proto.Op_REPORT_LEADER:
+		missing = req.ReportLeaderOp == nil
+	case proto.Op_DELETE_STREAM:
+		missing = req.DeleteStreamOp == nil
+	case proto.Op_PAUSE_STREAM:
+		missing = req.PauseStreamOp == nil
+	case proto.Op_RESUME_STREAM:
+		missing = req.ResumeStreamOp == nil
+	case proto.Op_SET_STREAM_READONLY:
+		missing = req.SetStreamReadonlyOp == nil
+	case proto.Op_JOIN_CONSUMER_GROUP:
+		missing = req.JoinConsumerGroupOp == nil
+	case proto.Op_LEAVE_CONSUMER_GROUP:
+		missing = req.LeaveConsumerGroupOp == nil
+	case proto.Op_REPORT_CONSUMER_GROUP_COORDINATOR:
+		missing = req.ReportConsumerGroupCoordinatorOp == nil
+	}
+	if missing {
+		return fmt.Errorf("missing payload for operation %s", req.Op)
+	}
+	return nil
 }
 
 func (s *Server) handleCreateStream(req *proto.PropagatedRequest) *proto.PropagatedResponse {
